@@ -52,7 +52,7 @@ Step(ev) ==
 Matches(ev) ==
   LET e == obs'.exp o == ev.obs IN
   /\ "obs" \in DOMAIN ev
-  /\ e.vals = o.vals /\ e.lens = o.lens /\ e.typs = o.typs /\ e.frozen = o.frozen
+  /\ e.vals = o.vals /\ e.lens = o.lens /\ e.typs = o.typs /\ e.frozen = o.frozen /\ o.refok = "ok"
   /\ \/ e.ret = "any"
      \/ e.ret = o.ret /\ e.out = o.out
 
